@@ -80,6 +80,10 @@ def build(env, spec):
     ks = [11 + 3 * i for i in range(rings)]
     forged = [1 + (i % 3) for i in range(npub)]
     hdr = None
+    if hov and hov.startswith("s0@"):
+        forged[int(hov[3:])] = 0          # a forged ring scalar of ZERO chosen by the prover: the ring closes, the specification rejects it
+    if hov and hov.startswith("sec0@"):
+        secs[int(hov[5:])] = 0            # a digit commitment with zero blinding: the signer's own ring key is the point at infinity
     if hov == "bit7":
         b0 = ((64 | exp) if mantissa else 0) | (32 if minv else 0) | 128
         hdr = bytes([b0]) + (bytes([mantissa - 1]) if mantissa else b"") + (minv.to_bytes(8, "big") if minv else b"")
@@ -123,6 +127,14 @@ def header_specs():
     out.append((18, 4, 0, "max", 0, b"", None))                  # 15 * 10^18 < 2^64 is fine (control: must be ACCEPTED)
     out.append((18, 5, 0, "zero", 0, b"", None))                 # 31 * 10^18 > 2^64: range overflow in the header
     out.append((0, 64, 1, "zero", 0, b"", None))                 # 2^64-1 + 1 wraps
+    # zero ring scalars / ring keys at infinity chosen by the PROVER (valid ring equations), at early and late flat positions:
+    # digits of the "alt" pattern are 3,2,1,0 so the non-signer positions are 0,1,2 | 4,5,7 | 8,10,11 | 13,14,15
+    for pos in (0, 1, 2, 4, 5, 7, 8, 10, 11):
+        out.append((0, 6, 0, "alt", 0, b"", "s0@%d" % pos))
+    out.append((0, 4, 0, "alt", 0, b"", "s0@5"))
+    out.append((1, 4, 1, "alt", 1, b"", "s0@7"))
+    for t in (0, 1):
+        out.append((0, 6, 0, "alt", 0, b"", "sec0@%d" % t))
     return out
 
 
@@ -382,7 +394,7 @@ def main():
         run_phase(run, "%s/model-prover-mutations" % cfg, case_fn, cases, setup=setup(cfg),
                   rule="model-built proofs for exp {0,1,18} x mantissa 0..8 (thorough +63,64) x has_min x digit patterns (every signer position) with forged scalars 1..3; per proof: as-is, every ring scalar <- s+n / 0 / n / s+1, e0^1, digit x <- x+p / off-curve / p / 2^256-1, every sign bit and spare bit, header bits, mantissa byte, trailing / truncated lengths, other / negated commitment, other generator, extra-data changes, and every single-bit flip for the exp-0 proofs with mantissa <= 3 (thorough <= 8); model verifier decides; reported range compared")
         run_phase(run, "%s/lenient-header-proofs" % cfg, header_case, header_specs(), setup=setup(cfg),
-                  rule="proofs whose ring signature is VALID for a header the specification forbids (exponent 19..31, reserved bit 7, min+max wrapping past 2^64, 2^mantissa*10^exp overflow): only a verifier with the exact header checks rejects them")
+                  rule="proofs whose ring signature is VALID for a header the specification forbids (exponent 19..31, reserved bit 7, min+max wrapping past 2^64, 2^mantissa*10^exp overflow): only a verifier with the exact header checks rejects them; and proofs whose PROVER chose a zero ring scalar (every non-signer flat position of a 3-ring proof) or a zero digit blinding factor (ring key at infinity): the ring equations hold, only the per-member zero / infinity rule rejects them")
         run_phase(run, "%s/noncanonical-digit-x" % cfg, smallx_case, [(0, 3, 0, 5), (0, 4, 0, 6), (1, 4, 0, 7), (0, 6, 1, 0b100110), (0, 6, 0, 0b100110), (2, 5, 1, 0b01101)], setup=setup(cfg),
                   rule="proofs over an adversarially chosen generator for which one digit commitment is a curve point with x = 1..: built with the canonical x (accept) and with x+p written and hashed in its place (a VALID ring signature over non-canonical bytes; only the x < p check rejects it); exp in {0,1,2}, mantissa 3..6, ring 0 / 1")
         run_phase(run, "%s/info-total" % cfg, info_case, list(range(256)) if first or thorough else list(range(0, 256, 5)), setup=setup(cfg),
